@@ -11,22 +11,29 @@ from ..util import switch_table, find_switches, is_assign
 from . import C11
 
 EXPLANATION = (
-    "Static decision of necessary structural clauses of C01: (1) the page writer's type->encoder "
-    "table and carquet_decode_plain's type->decoder table name the same PLAIN codec per physical type "
-    "and refuse unknown types; (2) nothing buffered is lost: every success path of "
-    "carquet_column_writer_finalize passes flush_current_page, flush_current_page runs "
-    "finalize -> append -> reset in that order, carquet_row_group_writer_finalize, executed for 0..3 columns x failure "
-    "position, finalizes every column in order and appends exactly the bytes each returned; (3) every status on the write path (src/writer/*, the RLE and "
-    "PLAIN encoders, buffer.c) is consumed on every path; (4) the hybrid level encoder never pads in "
-    "mid-stream (shared with C11.1) and PLAIN encoders append exactly what the decoders consume "
-    "(C11.2); (5) PLAIN BYTE_ARRAY by cursor-skeleton execution over abstract inputs (length fields "
-    "drawn from {0,1,5}, contents unknown, 0..3 values): the decoder accepts every exactly fitting "
-    "page - including a trailing empty string - with consumed = sum(4+len), rejects a page one byte "
-    "short, never reads outside the page, and the encoder appends sum(4+len) bytes; (6) compress_data and decompress_page, executed once per "
-    "codec value, store/copy the caller's bytes only for UNCOMPRESSED and otherwise use exactly that codec's "
-    "compressor/decompressor with the full buffers, whatever the sizes (no size-based shortcut). Decides these "
-    "clauses, not value/null-position equality (the multi-batch level layout is a known value-level "
-    "limitation described in DESIGN.md).")
+    "Static decision of necessary structural clauses of C01: (1) the PLAIN codec tables: the page "
+    "writer's add_values and carquet_decode_plain are executed abstractly once per physical type value "
+    "(and for values outside the enum) with every carquet_encode_plain_* / carquet_decode_plain_* hooked "
+    "- the codec reached per type is the same on both sides and unknown types are refused; (2) nothing "
+    "buffered is lost: carquet_column_writer_finalize executed over {empty, non-empty page} x {page "
+    "finaliser fails, append fails} finalizes a non-empty page, appends exactly the bytes and size the "
+    "page writer returned to the column buffer, and only then resets the page writer; "
+    "carquet_row_group_writer_finalize, executed for 0..3 columns x failure position, finalizes every "
+    "column in order and appends exactly the bytes each returned; (3) every status on the write path "
+    "(src/writer/*, the RLE and PLAIN encoders, buffer.c) is consumed on every path; (4) the hybrid level "
+    "encoder never pads in mid-stream and writes pending literals before a run (shared with C11.1) and "
+    "PLAIN encoders append exactly what the decoders consume (C11.2); (5) PLAIN BYTE_ARRAY by "
+    "cursor-skeleton execution over abstract inputs (length fields drawn from {0,1,5}, contents unknown, "
+    "0..3 values): the decoder accepts every exactly fitting page - including a trailing empty string - "
+    "with consumed = sum(4+len), rejects a page one byte short, never reads outside the page, and the "
+    "encoder appends sum(4+len) bytes; (6) compress_data, decompress_page and the four page loaders, "
+    "executed once per codec value and size relation, store/copy the caller's bytes only for UNCOMPRESSED "
+    "and otherwise use exactly that codec's compressor/decompressor with the stored bytes and full "
+    "buffers (no size-based shortcut). All executions are abstract execution (the repository's own "
+    "constant-propagation interpreter over the clang AST: configuration values are concrete, file "
+    "contents and buffers are Unknown, callees at the boundary of the function are hooked and recorded as "
+    "events, every path is enumerated). Decides these clauses, not value/null-position equality (the "
+    "multi-batch level layout is a known value-level limitation described in DESIGN.md).")
 
 PW = "src/writer/page_writer.c"
 CW = "src/writer/column_writer.c"
